@@ -270,6 +270,27 @@ pub fn gen(rng: &mut Rng, _index: u64) -> String {
         }
         _ => {
             let which = if rng.chance(1, 2) { "earcut" } else { "cdt" };
+            if rng.chance(1, 8) {
+                // a member sitting in the notch of a concave member: all its vertices on the other member's boundary
+                // (corner, corner, mid-edge) without being inside it; every ring start and direction
+                let s = rng.range(1, 3);
+                let u: Vec<(i64, i64)> = vec![(0, 0), (6 * s, 0), (6 * s, 4 * s), (4 * s, 4 * s), (4 * s, 2 * s), (2 * s, 2 * s), (2 * s, 4 * s), (0, 4 * s)];
+                let tri: Vec<(i64, i64)> = vec![(2 * s, 4 * s), (3 * s, 2 * s), (4 * s, 4 * s)];
+                let ring = |v: &Vec<(i64, i64)>, rng: &mut Rng| {
+                    let mut v = v.clone();
+                    let k = rng.below(v.len() as u64) as usize;
+                    v.rotate_left(k);
+                    if rng.chance(1, 2) { v.reverse(); }
+                    let f = v[0];
+                    v.push(f);
+                    LineString(v.into_iter().map(|(x, y)| c(x, y)).collect())
+                };
+                let (sw, mut ms) = (rng.chance(1, 2), vec![Polygon::new(ring(&u, rng), vec![]), Polygon::new(ring(&tri, rng), vec![])]);
+                if rng.chance(1, 2) { ms.reverse(); }
+                let g = Geometry::MultiPolygon(MultiPolygon(ms));
+                let g = if sw { use geo::algorithm::map_coords::MapCoords; g.map_coords(|p| Coord { x: p.y, y: p.x }) } else { g };
+                return format!("C10.stitch cdt {}", proto::geom(&g));     // (ear-cut stitching takes single polygons only)
+            }
             let g = gen_geom(rng, which == "cdt");
             format!("C10.stitch {} {}", which, proto::geom(&g))
         }
